@@ -1,7 +1,7 @@
 (* C07 - Result codecs round-trip every result and follow the documented layout. *)
 From Coq Require Import ZArith List Bool.
 From V Require Import Base.Duration Base.Str Base.Base64 Model.Csv Model.ResultCodec
-  Proofs.Base64Proofs Proofs.DecimalProofs Proofs.CsvProofs Proofs.ResultCodecProofs Model.Flags.
+  Proofs.Base64Proofs Proofs.DecimalProofs Proofs.CsvProofs Proofs.ResultCodecProofs Proofs.MimeProofs Model.Flags.
 Import ListNotations.
 Open Scope Z_scope.
 
@@ -71,6 +71,21 @@ Theorem csv_stream_roundtrip : forall rs,
   exists rs', csv_decode_all (flat_map csv_encode rs) = Some rs' /\ Forall2 (fun a b => cres_equal a b = true) rs rs'.
 Proof. exact csv_stream_roundtrip_lemma. Qed.
 Print Assumptions csv_stream_roundtrip.
+
+(* the header block: textproto-style reading of what http.Header.Write wrote gives the same map
+   back, for canonical, pairwise distinct keys with at least one value each and values without
+   line breaks or blanks at either end (what net/http yields) *)
+Theorem mime_roundtrip : forall m, hdr_dom m ->
+  mime_read (mime_write m) = Some (sort_hmap m) /\ headers_equal (Some m) (Some (sort_hmap m)) = true.
+Proof. exact mime_roundtrip_lemma. Qed.
+Print Assumptions mime_roundtrip.
+
+(* ... so the CSV stream theorem needs no hypothesis beyond the domain *)
+Theorem csv_stream_roundtrip_in_domain : forall rs,
+  Forall cres_dom rs -> Forall (fun r => headers_dom (c_headers r)) rs -> Forall texts_ok rs ->
+  exists rs', csv_decode_all (flat_map csv_encode rs) = Some rs' /\ Forall2 (fun a b => cres_equal a b = true) rs rs'.
+Proof. exact csv_stream_roundtrip_full. Qed.
+Print Assumptions csv_stream_roundtrip_in_domain.
 
 Example csv_record_hypotheses_satisfiable :
   let r := {| c_attack := [97;34;44]; c_seq := 18446744073709551615; c_code := 200; c_ts := 1600000000123456789; c_zone := 0;
